@@ -13,7 +13,7 @@ import (
 )
 
 // Version is bumped whenever generation changes; case lists record it.
-const Version = "g7"
+const Version = "g8"
 
 // Region of a case (chosen by index so that budgets per region are fixed).
 type Region int
@@ -621,4 +621,98 @@ func Templates(r *rand.Rand, re *syntax.Regexp) []string {
 		ts = append(ts, sb.String())
 	}
 	return ts
+}
+
+// ---------------------------------------------------------------------------
+// P: arbitrary strings offered as patterns (C09, C07).
+
+var tokens = []string{"a", "b", "(", ")", "[", "]", "{", "}", "*", "+", "?", "|", "^", "$", ".", `\`, `\d`, `\w`, `\b`, `\pL`, `\p{Greek}`, `\P{`, "(?", "(?i)", "(?P<n>", "(?:", ":", "-", ",", "1", "2", "0", "{2,3}", "{3,2}", "{1001}", "{,3}", "[^", "[:alpha:]", "[[:alpha:]]", "[a-", "z-a", `\x{`, `\x{10FFFF}`, `\x{110000}`, `\Q`, `\E`, `\z`, `\A`, `\C`, `\8`, "\xff", "\xc3", "é", "日", "`", `"`, "'", "\n", " ", "(?s)", "(?U)", "(?m)", "(?-i)", "(?i-s:", "**", "+?", "??", "(?P<", "(?P<n>a)(?P<n>b)", "(?<n>", "\\pN", "[[.a.]]", "[[=a=]]", `\_`, `\-`, "(?#c)", "(?=a)", "(?!a)", "(?<=a)"}
+
+// PString returns case i of the pattern-string universe.
+func PString(i uint64) (string, string) {
+	r := Rng("P", i)
+	switch k := r.IntN(100); {
+	case k < 25: // valid pattern from the D generator
+		p, _ := Pattern(r, i, RegionOf(i))
+		return p, "valid"
+	case k < 55: // one-token mutation of a valid pattern
+		p, _ := Pattern(r, i, RegionOf(i))
+		if len(p) > 200 {
+			p = p[:200]
+		}
+		j := r.IntN(len(p) + 1)
+		switch r.IntN(3) {
+		case 0:
+			return p[:j] + pick(r, tokens) + p[j:], "mutated-insert"
+		case 1:
+			e := min(len(p), j+1+r.IntN(2))
+			return p[:j] + p[e:], "mutated-delete"
+		default:
+			e := min(len(p), j+1)
+			return p[:j] + pick(r, tokens) + p[e:], "mutated-replace"
+		}
+	case k < 80: // token soup
+		n := 1 + r.IntN(8)
+		var sb strings.Builder
+		for j := 0; j < n; j++ {
+			sb.WriteString(pick(r, tokens))
+		}
+		return sb.String(), "soup"
+	case k < 86: // nesting family
+		d := pick(r, []int{1, 5, 50, 99, 100, 101, 150, 500, 999, 1000, 1001, 1200})
+		open := pick(r, []string{"(", "(?:", "(?i:"})
+		body := pick(r, []string{"a", "", "a|b", "a*"})
+		tail := pick(r, []string{"", "*", "?"})
+		return strings.Repeat(open, d) + body + strings.Repeat(")"+tail, d), "nesting"
+	case k < 92: // repetition-count family
+		a := pick(r, []int{0, 1, 2, 10, 100, 500, 999, 1000, 1001, 2000})
+		b := pick(r, []int{0, 1, 2, 10, 100, 500, 999, 1000, 1001})
+		inner := pick(r, []string{"a", "(a)", "[a-z]", "(ab|c)", "a{2}", `\pL`, "(a{10}){10}"})
+		if inner == `\pL` {
+			// a Unicode class repeated hundreds of times compiles for minutes (see DESIGN, C05 compile
+			// ladder); the limit families here are about acceptance, so keep the automaton small
+			a, b = a%101, b%101
+		}
+		switch r.IntN(4) {
+		case 0:
+			return fmt.Sprintf("%s{%d}", inner, a), "repeat"
+		case 1:
+			return fmt.Sprintf("%s{%d,}", inner, a), "repeat"
+		case 2:
+			return fmt.Sprintf("%s{%d,%d}", inner, a, b), "repeat"
+		default:
+			return fmt.Sprintf("(%s{%d}){%d}", inner, a%40, b%40), "repeat"
+		}
+	case k < 96: // big alternation / long literal
+		if r.IntN(2) == 0 {
+			return ManyLiterals(r, pick(r, []int{100, 300, 1000}), false), "bigalt"
+		}
+		return strings.Repeat(pick(r, []string{"ab", "x", "é", `\.`}), pick(r, []int{64, 65, 500, 3000})), "longlit"
+	default: // random bytes
+		n := r.IntN(12)
+		b := make([]byte, n)
+		for j := range b {
+			b[j] = byte(r.IntN(256))
+		}
+		return string(b), "bytes"
+	}
+}
+
+// QString returns a string for QuoteMeta checks.
+func QString(r *rand.Rand) string {
+	n := r.IntN(10)
+	var sb strings.Builder
+	for j := 0; j < n; j++ {
+		switch r.IntN(4) {
+		case 0:
+			sb.WriteString(pick(r, []string{`\`, ".", "+", "*", "?", "(", ")", "|", "[", "]", "{", "}", "^", "$", "-", "#", "&", "~", " ", "\n", "\t"}))
+		case 1:
+			sb.WriteByte(byte(r.IntN(256)))
+		case 2:
+			sb.WriteString(pick(r, []string{"é", "日", "😀", "a", "Z", "0"}))
+		default:
+			sb.WriteByte(byte(32 + r.IntN(95)))
+		}
+	}
+	return sb.String()
 }
